@@ -601,6 +601,10 @@ where
     #[cfg_attr(feature = "tracing", tracing::instrument(name = "Session::event_loop", skip(self), fields(outgoing_channel = %self.session.outgoing_channel().0)))]
     async fn event_loop(mut self, tx: oneshot::Sender<Result<(), Error>>) {
         let mut outcome = Ok(());
+        // A closed and drained channel is ready with `None` on every poll; it is taken out of
+        // the `select!` once that is seen so that the loop waits for the other channels
+        // instead of spinning.
+        let mut outgoing_link_frames_closed = false;
         loop {
             let result = tokio::select! {
                 incoming = self.incoming.recv() => {
@@ -665,7 +669,7 @@ where
                         }
                     }
                 },
-                frame = self.outgoing_link_frames.recv() => {
+                frame = self.outgoing_link_frames.recv(), if !outgoing_link_frames_closed => {
                     match frame {
                         Some(frame) => self.on_outgoing_link_frames(frame).await,
                         None => {
@@ -673,6 +677,7 @@ where
                             //
                             // Upon ending, all link-to-session channels will be closed
                             // first while the session is still waitint for remote end frame.
+                            outgoing_link_frames_closed = true;
                             Ok(Running::Continue)
                         }
                     }
